@@ -259,6 +259,28 @@ def build():
         ctx.check("three-subroutines-committed", len(conn.sent) == 3)
     R.add("flush[program split over three flushes]", kind="lia", samples=30, max_paths=200)(split)
 
+    def mk_same_future(flush_between):
+        def f(ctx):
+            a, c1, c2 = ctx.int("a", -100, 100), ctx.int("c1", -100, 100), ctx.int("c2", -100, 100)
+            conn, ex, _ = _mk(ctx)
+            arr, q = ctx.call(P.same_future_in_two_conditions, conn, a, c1, c2, flush_between)
+            want = (["x"] if ctx.truth(ctx.eq(a, c1)) else []) + (["y"] if ctx.truth(ctx.not_(ctx.eq(a, c2))) else []) + (["z"] if ctx.truth(ctx.lt(a, c2)) else [])
+            got = [e[1] for e in ex.events if e[0] == "single" and e[1] in ("x", "y", "z")]
+            ctx.check("every condition on the re-used handle is evaluated on the entry's value", got == want)
+            ctx.check("host-reads-the-array-back", ctx.and_(ctx.eq(ctx.index(arr, 0), a), ctx.eq(ctx.index(arr, 1), 7)))
+        return f
+    for fb in (False, True):
+        R.add(f"if[one Future handle in three conditions{', flush in between' if fb else ''}]", kind="lia", samples=40, max_paths=400)(mk_same_future(fb))
+
+    def arrays_flush(ctx):
+        a, b = ctx.int("a", -10 ** 6, 10 ** 6), ctx.int("b", -10 ** 6, 10 ** 6)
+        conn, ex, _ = _mk(ctx)
+        first, second, third = ctx.call(P.arrays_on_both_sides_of_a_flush, conn, a, b)
+        ctx.check("array allocated before the flushes keeps its identity and gets both updates", ctx.and_(ctx.eq(first[0], ctx.add(a, 10)), ctx.eq(first[1], 101)))
+        ctx.check("array allocated after the first flush is a different array", ctx.and_(ctx.eq(second[0], ctx.add(b, 20)), ctx.eq(second[1], 2), ctx.eq(second[2], 3)))
+        ctx.check("array allocated after the second flush is a different array", ctx.eq(third[0], 5))
+    R.add("flush[arrays allocated on both sides of a flush stay distinct]", kind="lia", samples=30, max_paths=200)(arrays_flush)
+
     def canary(ctx):
         a = ctx.int("a", *I32)
         b = ctx.int("b", *I32)
